@@ -7,10 +7,10 @@
    no Panic outcome to exclude; their agreement with the code — including on inputs where the original code
    panicked — is what the K-rx channel checks in debug and release builds.
    Partial (see MANIFEST level_note): allocation volume inside serde and stack bytes per frame are runtime
-   behaviour; EID accessors / bundle IDs / administrative-record decoding / JSON re-encoding are covered by the
-   theorems of C10, C13, C12 and C15 on the decoder's image. *)
+   behaviour; EID accessors / bundle IDs / JSON re-encoding are covered by the theorems of C10, C13 and C15 on the
+   decoder's image; administrative-record decoding of the payload by C06_admin_record_total below. *)
 From BP7 Require Import Base.Prelude Gen.Consts Cbor.SerdeDe Model.Types Model.Decode Model.Validate Model.DtnTime Model.Ops.
-From BP7 Require Import Proofs.DecodeImage Proofs.TotalProofs Proofs.OpsProofs Proofs.DtnTimeProofs.
+From BP7 Require Import Model.AdminRecord Proofs.DecodeImage Proofs.TotalProofs Proofs.OpsProofs Proofs.DtnTimeProofs Proofs.AdminTotal.
 
 Theorem C06_decode_total : forall bs : list byte, no_panic (from_cbor bs).
 Proof. exact decode_total. Qed.
@@ -43,6 +43,17 @@ Proof. exact depth_bounded. Qed.
 Theorem C06_length_claims_checked : forall n l x r, takeN n l = Some (x, r) -> n <= Nlen l /\ l = x ++ r /\ Nlen x = n.
 Proof. exact length_claims_checked. Qed.
 
+(* what a receiver does with the payload of an administrative-record bundle (serde_cbor::from_slice::<AdministrativeRecord>): for EVERY
+   byte string Ok or Err, never Panic - the status-item / status-report visitors branch on SeqAccess::size_hint, which is None for
+   indefinite-length arrays *)
+Theorem C06_admin_record_total : forall bs : list byte, no_panic (admin_from_bytes bs).
+Proof. exact admin_decode_total. Qed.
+
+Example C06_ex_admin_indefinite_item :
+  admin_from_bytes (map n2b [130; 1; 132; 129; 159; 245; 255; 0; 130; 1; 0; 130; 0; 0])
+  = Ok (BundleStatusReport (mk_sr [mk_item true 0 false] 0 (DtnNone 1 0) 0 0 0 0)).
+Proof. vm_compute. reflexivity. Qed.
+
 (* every decodable bundle has the decoder's shape (integer ranges, data variant by block type, EID forms) *)
 Theorem C06_decoded_shape : forall bs b, from_cbor bs = Ok b -> decodable_shape b = true.
 Proof. exact from_cbor_image. Qed.
@@ -55,3 +66,4 @@ Print Assumptions C06_receive_path_total.
 Print Assumptions C06_depth_bounded.
 Print Assumptions C06_length_claims_checked.
 Print Assumptions C06_decoded_shape.
+Print Assumptions C06_admin_record_total.
